@@ -21,6 +21,8 @@ static C_END_AFTER_FINAL: Counter = Counter::new("stream ended after a final sta
 static C_END_EXPIRED: Counter = Counter::new("stream of an expired subscription ended");
 static C_COMPLETE_CHECKS: Counter = Counter::new("completeness checked on a draining subscriber");
 static C_COMPLETE_FINAL: Counter = Counter::new("draining subscriber received the first final status and end-of-stream");
+static C_REPUBLISH: Counter = Counter::new("identical status value republished");
+static C_REPUBLISH_DELIVERED: Counter = Counter::new("draining subscriber received a republished identical value again");
 static C_LOSSY: Counter = Counter::new("subscriber missed a status (not draining)");
 
 // projected-history tokens (canonical state)
@@ -28,12 +30,17 @@ const T_GOT: u8 = 100;
 const T_ADV: u8 = 101;
 const T_TOUCH: u8 = 102;
 const T_DROP: u8 = 103;
+/// added to the kind for a republication of the identical value
+const T_REPUB: u8 = 50;
 
 #[derive(Clone, Debug, Serialize, Deserialize)]
 pub enum SubOp {
     Publish { tx: u8, kind: u8 },
     /// three consecutive Submitted publications (resubmissions) for `tx`: fills a subscriber buffer
     Burst { tx: u8 },
+    /// publish again exactly the status value last published for `tx` (identical bytes);
+    /// it is a publication of its own
+    Republish { tx: u8 },
     Subscribe { tx: u8 },
     /// one non-blocking poll of subscriber `sub`
     Recv { sub: u8 },
@@ -67,6 +74,8 @@ pub struct SubWorld {
     subs: Vec<Sub>,
     attempts: u8,
     count: u64,
+    /// per tx: the status value last published (kind, id)
+    last: [Option<(u8, u64)>; 2],
 }
 
 pub struct SubSubject {
@@ -95,10 +104,15 @@ impl SubSubject {
     fn publish(w: &mut SubWorld, tx: u8, kind: u8) -> String {
         w.count += 1;
         let id = w.count * 2 + tx as u64;
+        Self::publish_value(w, tx, kind, id, kind)
+    }
+
+    fn publish_value(w: &mut SubWorld, tx: u8, kind: u8, id: u64, token: u8) -> String {
+        w.last[tx as usize] = Some((kind, id));
         for s in w.subs.iter_mut() {
             if s.tx == tx {
                 s.pubs.push((kind, id));
-                s.tokens.push(kind);
+                s.tokens.push(token);
                 if s.stream.is_some() {
                     if !s.drained {
                         s.qualified = false;
@@ -226,7 +240,15 @@ impl SubSubject {
             Poll::Ready(Some(TxStatusMessage::Status(st))) => {
                 s.tokens.push(T_GOT);
                 let (k, id) = decode(&st);
-                let Some(pos) = s.pubs.iter().position(|p| *p == (k, id)) else {
+                // identical values may have been published more than once: match the earliest
+                // publication not yet accounted for (the lenient choice)
+                let after = s.last_idx.map(|l| l + 1).unwrap_or(0);
+                let found = s.pubs[after.min(s.pubs.len())..]
+                    .iter()
+                    .position(|p| *p == (k, id))
+                    .map(|p| p + after)
+                    .or_else(|| s.pubs.iter().position(|p| *p == (k, id)));
+                let Some(pos) = found else {
                     return Err(viol(
                         "status-not-published-for-this-subscription",
                         format!(
@@ -262,6 +284,9 @@ impl SubSubject {
                         ));
                     }
                 }
+                if s.qualified && pos > 0 && s.pubs[pos - 1] == (k, id) {
+                    C_REPUBLISH_DELIVERED.hit();
+                }
                 s.last_idx = Some(pos);
                 s.got.push((k, id));
                 Ok(Polled::Status(show(k, id)))
@@ -284,7 +309,7 @@ impl Subject for SubSubject {
             let _g = rt.enter();
             Manager::new(PERMITS, Duration::from_secs(SUB_TTL_S), Duration::from_secs(3600))
         };
-        SubWorld { rt, mgr, subs: vec![], attempts: 0, count: 0 }
+        SubWorld { rt, mgr, subs: vec![], attempts: 0, count: 0, last: [None, None] }
     }
 
     fn enabled(&self, w: &SubWorld) -> Vec<SubOp> {
@@ -302,6 +327,11 @@ impl Subject for SubSubject {
             v.push(SubOp::Publish { tx: 1, kind });
         }
         v.push(SubOp::Burst { tx: 0 });
+        for tx in 0..2u8 {
+            if w.last[tx as usize].is_some() && (tx == 0 || !self.kinds_y.is_empty()) {
+                v.push(SubOp::Republish { tx });
+            }
+        }
         if w.attempts < self.max_attempts {
             v.push(SubOp::Subscribe { tx: 0 });
             if !self.kinds_y.is_empty() {
@@ -329,6 +359,13 @@ impl Subject for SubSubject {
     fn step(&self, w: &mut SubWorld, op: &SubOp) -> Result<String, Violation> {
         match op {
             SubOp::Publish { tx, kind } => Ok(format!("published {}", Self::publish(w, *tx, *kind))),
+            SubOp::Republish { tx } => match w.last[*tx as usize] {
+                None => Ok("nothing-to-republish".into()),
+                Some((kind, id)) => {
+                    C_REPUBLISH.hit();
+                    Ok(format!("republished {}", Self::publish_value(w, *tx, kind, id, T_REPUB + kind)))
+                }
+            },
             SubOp::Burst { tx } => {
                 let a = Self::publish(w, *tx, 0);
                 let b = Self::publish(w, *tx, 0);
@@ -444,19 +481,21 @@ impl Subject for SubSubject {
                 .map(|(t, l)| (if t == txid(0) { 0 } else { 1 }, l.into_iter().map(|(st, age)| (st, age.as_millis() as u64)).collect()))
                 .collect()
         };
-        serde_json::to_vec(&(subs, senders, w.attempts)).unwrap()
+        // what Republish does next depends on the kind last published per tx
+        let last: Vec<Option<u8>> = w.last.iter().map(|l| l.map(|(k, _)| k)).collect();
+        serde_json::to_vec(&(subs, senders, w.attempts, last)).unwrap()
     }
 
     fn interesting(&self, op: &SubOp, obs: &str) -> bool {
         match op {
-            SubOp::Publish { .. } | SubOp::Burst { .. } | SubOp::Advance | SubOp::Drop { .. } => true,
+            SubOp::Publish { .. } | SubOp::Burst { .. } | SubOp::Republish { .. } | SubOp::Advance | SubOp::Drop { .. } => true,
             SubOp::Subscribe { .. } => true,
             _ => obs != "pending",
         }
     }
 
     fn required_labels(&self) -> Vec<String> {
-        ["Publish", "Burst", "Subscribe", "Recv", "Drain", "Drop", "Advance"].iter().map(|s| s.to_string()).collect()
+        ["Publish", "Burst", "Republish", "Subscribe", "Recv", "Drain", "Drop", "Advance"].iter().map(|s| s.to_string()).collect()
     }
 }
 
@@ -500,13 +539,14 @@ pub fn run(cli: &Cli) {
     }
     require_counters(
         &mut run,
-        &[&C_LIMIT, &C_FAILED_MARKER, &C_END_AFTER_FINAL, &C_END_EXPIRED, &C_COMPLETE_CHECKS, &C_COMPLETE_FINAL, &C_LOSSY],
+        &[&C_REPUBLISH, &C_REPUBLISH_DELIVERED, &C_LIMIT, &C_FAILED_MARKER, &C_END_AFTER_FINAL, &C_END_EXPIRED, &C_COMPLETE_CHECKS, &C_COMPLETE_FINAL, &C_LOSSY],
     );
+    run.assume("Republish(tx) publishes again the identical status value (same bytes) last published for tx; it is a publication of its own: a draining subscriber must receive it again; a received value is matched to the earliest publication of that value not yet accounted for");
     run.assume("2 subscription permits, subscription ttl 10 s (one Advance(ttl) per history), real MpscChannel buffer of 3, at most 3 subscribe calls per history (2 in the single-transaction exploration of the thorough tier)");
     run.assume("final = Success, Failure, SqueezedOut, PreConfirmationSqueezedOut (harness' own definition); 'nothing after the first final status' is read as: no status published after the first final status published since the subscription is ever delivered");
     run.assume("completeness clause is demanded only of subscribers that the harness saw empty (poll pending) before every publication for their tx and whose subscription has not reached the subscription ttl; FailedStatus markers are not statuses");
     run.assume("a refused subscribe (permit limit) is allowed at any time; the statement says nothing about when subscribing must succeed");
     run.assume("UpdateSender::send holds one mutex for the whole fan-out and the mpsc channel is linearizable, so letter-level interleaving of publisher and subscribers is the schedule space");
-    run.assume("canonical state = real dump of all subscription senders (stream state, age) + per subscription the sequence of events that touched it since the harness last saw it empty with everything delivered (publications by kind, receives, drop, ttl advance, purge opportunities after expiry) + drained/qualified/expired flags + number of subscribe calls");
+    run.assume("canonical state = real dump of all subscription senders (stream state, age) + per subscription the sequence of events that touched it since the harness last saw it empty with everything delivered (publications by kind, receives, drop, ttl advance, purge opportunities after expiry) + drained/qualified/expired flags + number of subscribe calls + kind of the status last published per tx (what Republish would send); republications carry their own event token");
     run.finish();
 }
